@@ -17,4 +17,3 @@ Definition gen_rwc_cause_from_active : bool := true.
 Definition gen_rwc_raise_from_cause : bool := true.
 Definition gen_rpoe_catch : catchkind := CatchException.
 Definition gen_rpoe_reraise : bool := gen_init_default_reraise.
-
